@@ -488,6 +488,15 @@ func (s *Server) handlePostTx(w http.ResponseWriter, r *http.Request) {
 		return
 	}
 
+	// Only the primary accepts forwarded transactions. A node that granted a
+	// halt lock and then lost the lease still has the lock on its books until
+	// it expires; applying the holder's transaction there would acknowledge a
+	// commit that no primary has.
+	if err := s.store.PrimaryCtx(r.Context()).Err(); err != nil {
+		Error(w, r, err, http.StatusServiceUnavailable)
+		return
+	}
+
 	// Ensure database should already exist from halt lock.
 	db := s.store.DB(name)
 	if db == nil {
